@@ -5,6 +5,7 @@ the complete uncached sequence (an error is acceptable, a short sequence ending 
 -/
 import OpenFGAVerif.Driver.Proto
 import OpenFGAVerif.Model.IterCache
+import OpenFGAVerif.Gen.Iter
 
 open OpenFGAVerif OpenFGAVerif.Proto OpenFGAVerif.Model.Iter OpenFGAVerif.Model.IterCache
 
@@ -229,8 +230,52 @@ def stepAssume (fS opsS impl : String) : String :=
     | _ => "SKIP unparsable"
   | _, _, _ => "SKIP unparsable"
 
+/-- "P<k>,<end>" → (k, end) -/
+def parsePrefixTok (s : String) : Option (Nat × String) :=
+  match s.splitOn "," with
+  | [p, e] =>
+    match p.toList with
+    | 'P' :: r => (String.ofList r).toNat?.map fun k => (k, e)
+    | _ => none
+  | _ => none
+
+def dropPrefix? (pre s : String) : Option String :=
+  if s.startsWith pre then some (String.ofList (s.toList.drop pre.length)) else none
+
+/-- `hc n pauseAt order`: requests A and B share one query over `n` tuples; A is cancelled while the batch fetch it
+triggered is inside the datastore iterator's `pauseAt`-th `Next`.  Property (checked on the implementation's output
+alone): B, whose context is live, is served all `n` tuples in order and then `Done`.  Model (`fetchMore` reads
+`bufferSize` items with a background context): A has been served the full batches before the one that was interrupted
+and its interrupted call answers `cancelled`. -/
+def stepCancelShare (nS pS impl : String) : String :=
+  match nS.toNat?, pS.toNat?, fields impl with
+  | some n, some p, [nf, af, bf, mf] =>
+    match dropPrefix? "n=" nf, dropPrefix? "A=" af, dropPrefix? "B=" bf, dropPrefix? "made=" mf with
+    | some nr, some a, some b, some made =>
+      match parsePrefixTok b with
+      | none => specViol s!"request B (live context) shares an iterator with a cancelled request and was served {b}: not the uncached sequence"
+      | some (kb, eb) =>
+        if kb != n || eb != "D" then
+          specViol s!"a cancelled sharer truncated/poisoned another sharer's sequence: got {kb} of {n} tuples and then {eb} — request B (live context) shares the iterator of request A, which was cancelled during the batch fetch it had triggered (datastore Next call {p})"
+        else if nr != toString n then modelDiff s!"n={n}"
+        else
+          let B := OpenFGAVerif.Gen.Iter.sharedBufferSize
+          let ka := if B == 0 then 0 else ((p - 1) / B) * B
+          let expectedA := s!"P{ka},C"
+          match parsePrefixTok a with
+          | none => specViol s!"request A was served {a}: not a prefix of the uncached sequence"
+          | some (ka', _) =>
+            if ka' > n then specViol s!"request A was served {ka'} tuples of {n}"
+            else if made != "1" then ok "cancel-share-not-shared" false
+            else if a != expectedA then modelDiff s!"n={n} A={expectedA} B=P{n},D made=1"
+            else ok "cancel-share" true
+    | _, _, _, _ => "SKIP unparsable"
+  | some _, some _, _ => modelDiff "n=<n> A=P<k>,C B=P<n>,D made=1"
+  | _, _, _ => "SKIP unparsable"
+
 def step (c impl : String) : String :=
   match fields c with
+  | ["hc", n, p, _] => stepCancelShare n p impl
   | ["h", m, evs] => stepHist m evs impl true
   | ["hr", m, evs] => stepHist m evs impl false
   | ["hv", m, evs] => stepHist m evs impl false     -- V2 cache: property only (every final read is the uncached sequence)
